@@ -978,6 +978,71 @@ def _oracle(cfg, path):
     return reported or glob
 
 
+# ---- the same rules, LOADED FROM A FILE (YAML / JSON, auto-discovered or named) through the library entry point ----------
+# "Given file-placement rules": the rules a user writes are a file; directory names are dict KEYS of that file and may
+# contain hyphens, underscores, dots, spaces, non-ASCII letters. Whatever the loading path does to section names, the
+# rules that reach the linter must be the rules in the file: verdicts through src.api.Linter == verdicts of the in-memory
+# FilePlacementLinter on the same rule set == the property oracle.
+_FDIRS = ["my-app", "my_app", "my-app/sub-dir", "my-app/sub_dir", "pkg.v2", "with space", "donn\u00e9es", "src", "a-b_c/x-y"]
+_FNAMES = ["a.py", "b.md", "test_c.py", "secret.txt", "d-e.yml"]
+
+
+def _file_route(rng, n_cfg, FilePlacementLinter):
+    import copy
+    import json
+    import tempfile
+    from pathlib import Path
+    import yaml
+    from src.api import Linter
+    cases = 0
+    for i in range(n_cfg):
+        ds = rng.sample(_FDIRS, rng.choice([2, 3, 4]))
+        cfg = {"directories": {d: ({} if rng.random() < 0.15 else _gen_rule(rng)) for d in ds}}
+        if rng.random() < 0.3:
+            cfg["global_deny"] = [{"pattern": rng.choice(_PATS), "reason": "g"}]
+        if rng.random() < 0.3:
+            cfg["global_patterns"] = _gen_rule(rng)
+        section = "file-placement" if i % 2 else "file_placement"
+        doc = {section: copy.deepcopy(cfg)}
+        with tempfile.TemporaryDirectory() as tmp:
+            root = Path(tmp) / "proj"
+            rels = []
+            for d in _FDIRS:
+                (root / d).mkdir(parents=True, exist_ok=True)
+                for fn in rng.sample(_FNAMES, 2):
+                    (root / d / fn).write_text("x = 1\n", encoding="utf-8")
+                    rels.append(f"{d}/{fn}")
+            (root / "top.py").write_text("x = 1\n", encoding="utf-8")
+            rels.append("top.py")
+            route = i % 3
+            if route == 0:
+                cfile = root / ".thailint.yaml"
+                cfile.write_text(yaml.safe_dump(doc, allow_unicode=True), encoding="utf-8")
+                linter = Linter(project_root=root)                       # auto-discovered YAML
+            elif route == 1:
+                cfile = root / ".thailint.json"
+                cfile.write_text(json.dumps(doc, ensure_ascii=False), encoding="utf-8")
+                linter = Linter(project_root=root)                       # auto-discovered JSON
+            else:
+                cfile = Path(tmp) / "rules-for-ci.yml"
+                cfile.write_text(yaml.safe_dump(doc, allow_unicode=True), encoding="utf-8")
+                linter = Linter(config_file=cfile, project_root=root)    # named file (--config)
+            memory = FilePlacementLinter(config_obj=copy.deepcopy(cfg), project_root=root)
+            for rel in rels:
+                cases += 1
+                want = _oracle(cfg, rel)
+                try:
+                    in_memory = len(memory.lint_path(root / rel)) > 0
+                    vs = [v for v in linter.lint(root / rel, rules=["file-placement"]) if v.rule_id.startswith("file-placement")]
+                    got = len(vs) > 0
+                except Exception as e:  # noqa
+                    return (cfg, rel, f"exception {e!r}"[:300], f"reported={want}", f"{root} [{cfile.name}]"), cases
+                if not (got == in_memory == want):
+                    return (cfg, rel, f"reported={got} through {cfile.name} (in-memory config object: reported={in_memory})",
+                            f"reported={want}", f"{root} [{cfile.name}]"), cases
+    return None, cases
+
+
 @_custom("c18-placement-differential-bounded", props=["C18"])
 def c18_placement_differential(ctx):
     import copy
@@ -1035,9 +1100,46 @@ def c18_placement_differential(ctx):
                 break
         if bad:
             break
+    if bad is None:
+        fbad, fcases = _file_route(rng, 30 if ctx.get("tier") == "thorough" else 10, FilePlacementLinter)
+        cases += fcases
+        if fbad:
+            bad, root = fbad[:4], fbad[4]
     note = "" if bad is None else (f"rules {bad[0]} (project root {root}), path {bad[1]}: got {bad[2]}, expected {bad[3]}")[:2000]
     return [{"name": name, "kind": "bounded", "verdict": "passed" if bad is None else "refuted", "note": note,
-             "tool": "cpython (FilePlacementLinter(config_obj, project_root).lint_path on generated rule sets x paths)",
-             "budget": f"{n_cfg} generated rule sets x {len(_PATHS)} paths x 3 lookups", "cases": cases,
+             "tool": "cpython (FilePlacementLinter(config_obj, project_root).lint_path on generated rule sets x paths; the same "
+                     "rule sets loaded from .thailint.yaml / .thailint.json / --config-style files through src.api.Linter)",
+             "budget": f"{n_cfg} generated rule sets x {len(_PATHS)} paths x 3 lookups + rule sets loaded from files", "cases": cases,
              "ms": round((time.time() - t0) * 1000, 1), "witness_confirmed": bad is not None,
              "model_inputs": {"rules": bad[0], "path": bad[1]} if bad else None}]
+
+
+# ---- C18's dependency cone: the path from a rules FILE to the linter (owned by the configuration property's files) --------
+# contracts/c05_config.py / c05_parse.py state for _normalize_config_keys / parse_config_file / load_config /
+# LinterConfigLoader.load: "result == norm_fold(top-level items)": ONLY top-level keys are normalised, every value --
+# in particular the `directories` mapping whose KEYS are directory names -- is returned unchanged. They carry "C18".
+from pyvc import api as _api18  # noqa: E402
+
+_C18_CONE = ("src/core/config_parser.py::_normalize_config_keys", "src/core/config_parser.py::parse_config_file",
+             "src/core/config_parser.py::parse_yaml", "src/core/config_parser.py::parse_json",
+             "src/linter_config/loader.py::load_config", "src/linter_config/loader.py::LinterConfigLoader.load")
+_C18_CONE_ERRORS = {}
+for _modname in ("contracts.c05_config", "contracts.c05_parse"):
+    try:
+        __import__(_modname)
+    except BaseException as _e:  # noqa  (reported by the check below, never silently)
+        _C18_CONE_ERRORS[_modname] = repr(_e)[:200]
+for _t in _C18_CONE:
+    if _t in _api18.REGISTRY and "C18" not in _api18.REGISTRY[_t].props:
+        _api18.REGISTRY[_t].props.append("C18")
+
+
+@_custom("c18-cone-rules-file-loading", props=["C18"])
+def c18_cone(ctx):
+    missing = [t for t in _C18_CONE if t not in _api18.REGISTRY or "C18" not in _api18.REGISTRY[t].props
+               or _api18.REGISTRY[t].assumed]
+    ok = not missing and not _C18_CONE_ERRORS
+    return [{"name": "custom:c18-cone-rules-file-loading/registered", "kind": "frame", "carries": False,
+             "verdict": "discharged" if ok else "unknown", "solver": "registry", "ms": 0.0,
+             "note": f"config-file loading units in C18's cone: {len(_C18_CONE)}; missing or assumed: {missing}; "
+                     f"import errors: {_C18_CONE_ERRORS}"}]
